@@ -6,7 +6,7 @@ c=$1; prop=$2; tier=${3:-quick}
 d=/tmp/rv-$c
 rm -rf $d; mkdir -p $d
 rsync -a --exclude .git --exclude '*.o' --exclude '*.lo' --exclude '.libs' --exclude '*.la' --exclude '*.a' /repo/include /repo/lib $d/ 
-mkdir -p $d/tests; cp /repo/tests/upipe_h264_framer_test.h $d/tests/ 2>/dev/null
+mkdir -p $d/tests; cp /repo/tests/*.c /repo/tests/*.h $d/tests/ 2>/dev/null
 ( cd $d && git -C /repo show $c -- include lib | patch -R -p1 -s ) || { echo "revert failed"; rm -rf $d; exit 2; }
 cp /verif/evidence/$prop.json /tmp/evidence-$prop.bak 2>/dev/null
 ( cd /verif && VERIF_REPO=$d ./check $prop $tier > /tmp/rv-$c.out 2>&1 ); rc=$?
